@@ -122,7 +122,8 @@ Definition blk_build_body (junk : Z -> Z) (body : option bytes) (data : bytes) (
 Record blk_arr := { ba_num : Z; ba_m : Z; ba_szx : Z; ba_size : option Z; ba_data : bytes }.
 
 (* lg_srcv / lg_crcv as far as reassembly goes *)
-Record blk_rcv := { br_rec : blk_ranges; br_total : Z; br_body : option bytes }.
+(* br_nomore = lg_srcv->no_more_seen: the final block (M = 0) has been seen (server only) *)
+Record blk_rcv := { br_rec : blk_ranges; br_total : Z; br_body : option bytes; br_nomore : bool }.
 
 Inductive blk_out :=
 | BoContinue                  (* 2.31 / empty ACK / next block requested: nothing delivered *)
@@ -146,7 +147,8 @@ Definition blk_srv_step (junk : Z -> Z) (st : option blk_rcv) (a : blk_arr)
   let offset := ba_num a * chunk in
   let s0 := match st with
             | Some s => s
-            | None => {| br_rec := []; br_total := blk_opt_z (ba_size a); br_body := None |}
+            | None => {| br_rec := []; br_total := blk_opt_z (ba_size a); br_body := None;
+                        br_nomore := false |}
             end in
   (* while (offset < saved_offset + length): exactly one iteration when length > 0 *)
   let upd :=
@@ -164,11 +166,15 @@ Definition blk_srv_step (junk : Z -> Z) (st : option blk_rcv) (a : blk_arr)
                     then offset + len data else br_total s0 in
       let body' := if update_data then blk_build_body junk (br_body s0) data offset total'
                    else br_body s0 in
-      let s1 := {| br_rec := r'; br_total := total'; br_body := body' |} in
-      if blk_check_all_in r' ((total' + chunk - 1) / chunk) then
+      let allin := blk_check_all_in r' ((total' + chunk - 1) / chunk) in
+      (* M set: the body is complete only if the final block was seen before (no_more_seen)
+         and everything is in; M clear: complete if everything is in, else no_more_seen = 1 *)
+      let complete := if ba_m a =? 1 then br_nomore s0 && allin else allin in
+      if complete then
         (* give_app_data; the lg_srcv is released after the handler ran *)
         (None, BoDeliver (match body' with Some b => take total' b | None => [] end))
-      else (Some s1, BoContinue)
+      else (Some {| br_rec := r'; br_total := total'; br_body := body';
+                    br_nomore := if ba_m a =? 1 then br_nomore s0 else true |}, BoContinue)
   end.
 
 (* coap_handle_response_get_block, Block2, COAP_BLOCK_SINGLE_BODY, no BERT/Q-Block2, the
@@ -187,7 +193,7 @@ Definition blk_cli_step (junk : Z -> Z) (st : option blk_rcv) (a : blk_arr)
                else s in
   let s0 := match st with
             | Some s => s
-            | None => {| br_rec := []; br_total := size2; br_body := None |}
+            | None => {| br_rec := []; br_total := size2; br_body := None; br_nomore := false |}
             end in
   let total' := if br_total s0 <? size2 then size2 else br_total s0 in
   let upd :=
@@ -200,14 +206,16 @@ Definition blk_cli_step (junk : Z -> Z) (st : option blk_rcv) (a : blk_arr)
     else Some (br_rec s0, false) in
   match upd with
   | None => (* fail_resp: the lg_crcv stays (cached for a second), nothing was stored *)
-      (Some {| br_rec := br_rec s0; br_total := total'; br_body := br_body s0 |}, BoFail)
+      (Some {| br_rec := br_rec s0; br_total := total'; br_body := br_body s0; br_nomore := false |},
+       BoFail)
   | Some (r', false) =>
-      (Some {| br_rec := r'; br_total := total'; br_body := br_body s0 |}, BoContinue)
+      (Some {| br_rec := r'; br_total := total'; br_body := br_body s0; br_nomore := false |},
+       BoContinue)
   | Some (r', true) =>
       let size2' := if size2 <? offset + len data then offset + len data else size2 in
       let body' := blk_build_body junk (br_body s0) data offset size2' in
       if (ba_m a =? 1) || negb (blk_check_all_in r' ((size2' + chunk - 1) / chunk)) then
-        (Some {| br_rec := r'; br_total := total'; br_body := body' |}, BoContinue)
+        (Some {| br_rec := r'; br_total := total'; br_body := body'; br_nomore := false |}, BoContinue)
       else
         (None, BoDeliver (match body' with Some b => take (offset + len data) b | None => [] end))
   end.
